@@ -94,6 +94,7 @@ def gen(rng, knobs):
     return {"backend": backend, "clients": clients, "preload": pre, "subscription_limit": limit,
             "p_buffered": rng.choice([0.0, 0.0, 0.3, 0.8]),
             "faults": sorted(rng.sample(range(3, 90), rng.choice([1, 2]))) if (backend == "sql" and rng.random() < 0.2) else [],
+            "storage_opts": histgen.pool_knob(rng, backend),
             "sched": {**histgen.stall_knob(rng), "client": rng.choice([0.5, 1.0, 3.0]), "sql": rng.choice([0.3, 1.0, 3.0]),
                       "pool": rng.choice([0.3, 1.0, 3.0]), "writer": rng.choice([0.2, 1.0, 3.0]),
                       "wsend": rng.choice([0.2, 1.0]), "ready": rng.choice([1.0, 4.0, 8.0])}}
@@ -377,6 +378,7 @@ def check_client(c, world, case, ev_times, ev_done, submissions, quiet_points, v
 def run(case, sim):
     backend = case["backend"]
     w = relay.RelayWorld(sim, backend, case["clients"], cfg={"subscription_limit": case["subscription_limit"]},
+                         storage_opts=case.get("storage_opts"),
                          preload=case.get("preload"), p_buffered=case.get("p_buffered", 0.0))
     viol = []
     probes = collections.Counter()
